@@ -445,7 +445,7 @@ pub fn step<Q: QueueLike>(q: &mut Q, op: &Op, m: &mut Model, unordered: &mut boo
             let mut ix = 0usize;
             if *rev {
                 // the writes happen inside the closure, while the iterator is alive
-                it.rev_for_each_(&mut |(i, p): (&mut Item, &mut Prio)| {
+                let offered = it.rev_for_each_(&mut |(i, p): (&mut Item, &mut Prio)| {
                     fault_point(C_CLOSURE);
                     seen.push(pair_of(i, p));
                     if let Some(Some(np)) = writes.get(ix) {
@@ -453,6 +453,10 @@ pub fn step<Q: QueueLike>(q: &mut Q, op: &Op, m: &mut Model, unordered: &mut boo
                     }
                     ix += 1;
                 });
+                if !offered {
+                    // this iterator type is not double-ended: nothing was asked of it
+                    return Ok(Ret::Pairs(vec![]));
+                }
             } else {
                 it.for_each_(&mut |(i, p): (&mut Item, &mut Prio)| {
                     fault_point(C_CLOSURE);
